@@ -111,10 +111,14 @@ class PathAlgebra:
                     r = left == right
                 elif isinstance(op, ast.NotEq):
                     r = left != right
-                elif isinstance(op, ast.In):
-                    r = left in right
-                elif isinstance(op, ast.NotIn):
-                    r = left not in right
+                elif isinstance(op, (ast.In, ast.NotIn)):
+                    if isinstance(left, tuple) and isinstance(right, tuple) and all(isinstance(x, str) for x in right):
+                        # str(<path>) in str(<path>): substring test on the renderings
+                        r = ("/" + "/".join(left)) in ("/" + "/".join(right))
+                    else:
+                        r = left in right
+                    if isinstance(op, ast.NotIn):
+                        r = not r
                 elif isinstance(op, ast.Is):
                     r = left is right
                 elif isinstance(op, ast.IsNot):
@@ -155,6 +159,12 @@ class PathAlgebra:
                                 v = self.ev(a)
                                 out = out + (tuple(x for x in v.split("/") if x) if isinstance(v, str) else tuple(v))
                         return out
+                    if m in ("startswith", "endswith", "count") and len(e.args) == 1:
+                        # a string method applied to str(<path>): evaluate it on the POSIX renderings ("/R/acme/api")
+                        a = self.ev(e.args[0])
+                        if isinstance(a, tuple):
+                            a = "/" + "/".join(a)
+                        return getattr("/" + "/".join(recv), m)(a)
                     if m == "is_relative_to" and len(e.args) == 1:
                         o = self.ev(e.args[0])
                         return recv[: len(o)] == o
@@ -193,6 +203,10 @@ def layouts() -> List[Dict[str, Any]]:
             core_pkg[-1] = "core"
             core_dir = root + tuple(["shared", "x", "y"][: k - 1]) + ("core",)
             out.append(dict(kind=f"outside-depth{k}", client_pkg=client_pkg, core_dir=core_dir, root=root))
+        # textual-prefix siblings: the core's path *string* starts with the client's path string although the core is not
+        # inside the client package (acme/api vs acme/api_shared/core): catches string-prefix tests used for containment
+        out.append(dict(kind="prefix-sibling-depth2", client_pkg=client_pkg, core_dir=client_dir[:-1] + (client_dir[-1] + "_shared", "core"), root=root))
+        out.append(dict(kind="prefix-sibling-depth3", client_pkg=client_pkg, core_dir=client_dir[:-1] + (client_dir[-1] + "_shared", "rt", "core"), root=root))
         # sibling inside the same parent package as the client (e.g. apis.v1.core next to apis.v1.client)
         if cdepth > 1:
             out.append(dict(kind="sibling-in-parent-package", client_pkg=client_pkg, core_dir=client_dir[:-1] + ("core",), root=root))
